@@ -203,6 +203,9 @@ fn main() {
             }
         }
         let rp_chan = envs("MAYV_RP", "park") == "chan";
+        // MAYV_RP0=sleep: the first blocking call of readpark is a 1 ms sleep instead of the socket read (a subscriber of
+        // the sleep that is held up registers its cancel data after the target has been resumed by the timer)
+        let rp0_sleep = envs("MAYV_RP0", "read") == "sleep";
         // readpark: 0 = not yet, 1 = the target is about to read, 2 = the read has returned
         let rstage = Arc::new(AtomicUsize::new(0));
         let (rstage_t, rstage_f) = (rstage.clone(), rstage.clone());
@@ -446,7 +449,11 @@ fn main() {
                             }
                         }
                         "readpark" => {
-                            if rstage_t.load(Ordering::SeqCst) == 0 {
+                            if rstage_t.load(Ordering::SeqCst) == 0 && rp0_sleep {
+                                rstage_t.store(1, Ordering::SeqCst);
+                                may::coroutine::sleep(std::time::Duration::from_millis(1));
+                                rstage_t.store(2, Ordering::SeqCst);
+                            } else if rstage_t.load(Ordering::SeqCst) == 0 {
                                 let mut buf = [0u8; 16];
                                 rstage_t.store(1, Ordering::SeqCst);
                                 match sb.read(&mut buf) {
